@@ -23,7 +23,7 @@ KEYS = ["x", "X", "y", "a\rb", "a\nb", "a\0b"]
 VALUES = ["ok", "é", "a;b", "", "a\rb", "a\nb", "a\0b", "a\r\nset-cookie: x=1", "attachment; filename=" + "文件" * 14 + ".txt"]
 DEPTH = {"quick": 3, "thorough": 4}
 COOKIE_ALPHA = ["\r", "\n", "\0", ";", ",", "=", '"', "\\", " ", "a", "é", "\x7f", "\x80", "中",
-                "\u037e", "\uff1b", "\u2028"]  # a character that is canonically equivalent to ';', one that is so by compatibility, a line separator
+                "\u037e", "\uff1b", "\u2028", "%n"]  # a character that is canonically equivalent to ';', one that is so by compatibility, a line separator
 COOKIE_LEN = {"quick": 2, "thorough": 3}
 URL_ALPHA = ["\r", "\n", "\0", " ", "é", "%", "/", "?", "#", ":", "a"]
 BADCH = ("\r", "\n", "\0")
@@ -272,7 +272,7 @@ def run_shard(desc, tier):
         n = COOKIE_LEN[tier]
         idx = desc[1]
         strings = [""] + ["".join(t) for k in range(1, n + 1) for t in itertools.product(COOKIE_ALPHA, repeat=k)]
-        names = [s for s in strings if (s[:1] == COOKIE_ALPHA[idx] if idx < len(COOKIE_ALPHA) else s == "")]
+        names = [s for s in strings if (s.startswith(COOKIE_ALPHA[idx]) if idx < len(COOKIE_ALPHA) else s == "")]
         for name in names:
             for value in strings:
                 check_cookie(r, name, value, full=False)
@@ -296,6 +296,13 @@ def run_shard(desc, tier):
                 check_cookie(r, "sid", "ab" + ch * k + tail, full=True)
                 check_cookie(r, "n" + ch * k + tail, "v", full=False)
                 check_cookie(r, "sid", ch * k + tail, full=False, late=True)
+        # text that a date formatter would expand (the Expires attribute is made by one): with every attribute set, and deleted
+        if idx == 0:
+            for d in ("%n", "%t", "%%", "%D", "%c", "%Z", "%5", "%", "100%", "%n%n", "a%nb", "%a, %d %b %Y"):
+                for other in ("v", d):
+                    check_cookie(r, "sid", d if other == "v" else other, full=True)
+                    check_cookie(r, d, other, full=True)
+                    check_cookie(r, d, "", full=False, delete=True)
         # an empty value (what delete_cookie() sends) with every hostile name
         for name in names:
             check_cookie(r, name, "", full=False, delete=True)
@@ -305,6 +312,9 @@ def run_shard(desc, tier):
         for k in range(0, 3):
             for t in itertools.product(URL_ALPHA, repeat=k):
                 check_redirect(r, a0 + "".join(t))
+                # the same text inside and after an authority that is not ASCII (an internationalised host name)
+                check_redirect(r, "http://b\u00fc" + a0 + "".join(t) + "cher.example/p")
+                check_redirect(r, "//\u4e2d.example" + a0 + "".join(t))
         r.sample({"redirect": a0 + "\r\n"})
     return r
 
